@@ -84,6 +84,16 @@ def handle (line : String) : String :=
           let c : SamplingCfg := { period := p, periodUnit := pu, tol := tl, unit := u }
           s!"ok {onlineCounter c tsl} {offlineCounter c st tsl} {(gaps tsl).countP c.outside}"
       | _, _, _, _, _, _ => "bad-input"
+  | "prog" :: fs :: n :: sigs =>
+      -- multi-assertion online monitor (dictionary keyed by formula + per-update memo): per update the
+      -- value of every assertion; rounds separated by ';'
+      match (fs.splitOn ";;").mapM (fun s => parseFormula s), n.toNat?, parseEnv sigs with
+      | some specs, some n, some w =>
+          let es := (List.range n).map (fun t => fun x => sigma w x t)
+          match runProgram Generated.onlineDiscrete.handles Generated.onlineDiscrete.raises specs es with
+          | .ok rounds => "ok " ++ ";".intercalate (rounds.map (fun rd => showVals rd.1))
+          | .error e => "err " ++ errStr e
+      | _, _, _ => "bad-input"
   | "units" :: unit :: period :: punit :: b :: bu :: e :: eu :: _ =>
       -- elaboration of one surface interval: discrete samples and dense default-unit bounds
       let ou (s : String) : Option (Option TUnit) := if s = "-" then some none else (parseUnit s).map some
